@@ -84,13 +84,22 @@ def states(tier, seed):
             out.append(_st(process="EM", projectile=pr, scheme=sc, Q2=q2, pol=pol, s2w=s2w))
         for pr, sc, q2, ckm, mw, pol in itertools.product(PROJ, ["ZM-VFNS", "FFNS3", "FFNS4", "FFNS5"], Q2S, list(CKMS), [80.398, 10.0], [0.0, -1.0]):
             out.append(_st(process="CC", projectile=pr, scheme=sc, Q2=q2, ckm=ckm, MW=mw, pol=pol))
+    # non-default heavy-quark masses and matching ratios: the number of active flavours (hence which weights exist) moves with (m k)^2
+    for pr, proc, (ms, ks), q2 in itertools.product(
+        ["electron", "antineutrino"], ["NC", "CC"],
+        [((1.51, 4.92, 172.5), (2.0, 2.0, 2.0)), ((1.51, 4.92, 172.5), (0.5, 1.0, 0.1)), ((1.2, 4.0, 150.0), (1.0, 1.5, 1.0)), ((2.0, 5.5, 180.0), (0.7, 0.7, 0.7))],
+        [1.0, 3.0, 5.0, 20.0, 30.0, 50.0, 100.0, 400.0, 3e4, 1.2e5],
+    ):
+        out.append(_st(process=proc, projectile=pr, Q2=q2, masses=list(ms), kthr=list(ks), pol=0.4 if proc == "NC" else 0.0, ckm="dense" if proc == "CC" else "pdg"))
     return out
 
 
 def _nf(st):
     fns, nfff = cards.SCHEMES[st["scheme"]]
     if fns == "ZM-VFNS":
-        return 3 + sum(1 for m in (1.51, 4.92, 172.5) if m * m <= st["Q2"])
+        ms = st.get("masses", (1.51, 4.92, 172.5))
+        ks = st.get("kthr", (1.0, 1.0, 1.0))
+        return 3 + sum(1 for m, k in zip(ms, ks) if (m * k) ** 2 <= st["Q2"])
     return nfff
 
 
@@ -102,7 +111,10 @@ def execute(st):
         "process": st["process"],
         "projectile": st["projectile"],
         "pto": 0,
-        "theory": {"SIN2TW": st["s2w"], "MZ": mz, "MW": st["MW"], "CKM": CKMS[st["ckm"]]},
+        "theory": dict(
+            {"SIN2TW": st["s2w"], "MZ": mz, "MW": st["MW"], "CKM": CKMS[st["ckm"]]},
+            **({"mc": st["masses"][0], "mb": st["masses"][1], "mt": st["masses"][2], "kcThr": st["kthr"][0], "kbThr": st["kthr"][1], "ktThr": st["kthr"][2]} if "masses" in st else {}),
+        ),
         "obscard": {"PolarizationDIS": st["pol"], "PropagatorCorrection": st["prc"]},
     }
     zm = st["scheme"] == "ZM-VFNS"
